@@ -29,6 +29,9 @@ CHECKS["C05"] = ("metamorphic relation: every public output of a transformed run
 CHECKS["C04"] = ("metamorphic merge-the-addends relation + respondent-level signed sums + wave-difference rule (Hypothesis)",
     "Generated-input search with three oracles: (direct) every inserted cell vs the signed sum over respondents and the NaN rules; (merge) the survey is rewritten so the addends are one category and every measure of the subtotal vector (counts, six bases, proportions, variances, std-errs, MoEs, z/p when both tables have rank>=2, pairwise t/p as compared and as selected column, scale statistics, population estimates) must equal the merged category's; (wave) categorical-date one-minus-one and multi-term differences. Two defects fixed, one recorded.",
     "Share of sum is judged in C15; legacy PairwiseSignificance helpers and smoothed series excluded from the equivalence (stated in evidence).", "6 C04")
+CHECKS["C06"] = ("metamorphic relation: partition k of a 3-D / multi-cube response == the 2-D (1-D) analysis of the survey restricted to table element k (Hypothesis)",
+    "Generated-input search: 3-D cubes with CAT (missing categories anywhere) / MR / CA-items table dimensions crossed with all row x column pairings and random transforms; for each valid table element the respondents are restricted, re-encoded as a 2-D cube and every public output compared; tabbook, CA-as-0th and numeric-summary CubeSets compared with their constituent analyses. One defect found and fixed (3-D column index baseline).",
+    "Ties the 3-D / CubeSet paths to the 2-D path, which C01-C03/C11-C16 tie to respondents. CA categories as table dimension and single-column-filter augmentation are not generated.", "6 C06")
 NOT_BUILT = {}
 
 def main():
